@@ -431,7 +431,7 @@ func run(c *hc.Ctx) error {
 		impls = append(impls, impl)
 	}
 	tags := [][4]byte{{0xef, 0xef, 0xef, 0xef}, {0xee, 0xee, 0xee, 0xee}, {0xdd, 0xdd, 0xdd, 0xdd}}
-	n := c.N(1500, 60000)
+	n := c.N(4000, 60000)
 	for i := 0; i < n; i++ {
 		tape, retries := genTape(r)
 		tape = append(tape, r.Bytes(64)...) // spare block: unused unless the last candidate is rejected by chance
